@@ -348,13 +348,15 @@ bool decode_branch(const std::vector<uint8_t>& img, size_t size, size_t start, s
   *via_table = false;
   const uint8_t* p = img.data() + start;
   size_t len = end - start;
-  if (is64 && len >= 1 && p[0] == 0x40) { p++; len--; }   // the REX byte reserved so that the instruction can be patched
+  // prefixes: branch hints (2E / 3E), and in 64-bit mode REX bytes (a forced one, and the one reserved so that the
+  // instruction can be patched into a jump through the address table)
+  while (len >= 1 && (p[0] == 0x2E || p[0] == 0x3E || (is64 && (p[0] & 0xF0) == 0x40))) { p++; len--; }
   int64_t rel; uint64_t mask = is64 ? ~0ull : 0xffffffffull;
   if (len == 5 && (p[0] == 0xE8 || p[0] == 0xE9)) { int32_t r; memcpy(&r, p + 1, 4); rel = r; }
   else if (len == 6 && p[0] == 0x0F && (p[1] & 0xF0) == 0x80) { int32_t r; memcpy(&r, p + 2, 4); rel = r; }
   else if (len == 2 && (p[0] == 0xEB || (p[0] & 0xF0) == 0x70)) rel = int8_t(p[1]);
-  else if (is64 && end - start == 6 && img[start] == 0xFF && (img[start + 1] == 0x15 || img[start + 1] == 0x25)) {
-    int32_t r; memcpy(&r, img.data() + start + 2, 4);
+  else if (is64 && len == 6 && p[0] == 0xFF && (p[1] == 0x15 || p[1] == 0x25)) {
+    int32_t r; memcpy(&r, p + 2, 4);
     size_t slot_off = size_t(int64_t(end) + r);
     SIM_CHECK(slot_off + 8 <= size && slot_off >= addrtab_off && addrtab_off != 0, "c04:address-table-slot", "call/jmp through the address table points to image offset %zu, outside the table", slot_off);
     memcpy(designated, img.data() + slot_off, 8);
@@ -412,11 +414,17 @@ void execute_decode(const Plan& plan) {
               case 5: t = base + uint64_t(before) + uint64_t(int64_t(op.a[0] % 300) - 150); break;   // short forms when the base is known
             }
             if (target == 0) t &= 0xffffffffull;
+            // a prefix in front of the branch: a forced REX (64-bit), or a branch hint (jcc with predicted jumps enabled)
+            int prefix = int((op.a[3] / 6) % 4);
+            size_t prefix_len = (prefix == 1 && target == 1) || (prefix >= 2 && form == 4) ? 1 : 0;
+            if (prefix == 1 && target == 1) { xa.rex(); sim::count("c04.probe.branch_with_rex_prefix"); }
+            else if (prefix >= 2 && form == 4) { xa.add_encoding_options(EncodingOptions::kPredictedJumps); if (prefix == 2) xa.taken(); else xa.not_taken(); sim::count("c04.probe.branch_with_hint_prefix"); }
             Error er = form < 2 ? xa.call(Imm(t)) : form < 4 ? xa.jmp(Imm(t)) : xa.jz(Imm(t));
+            xa.clear_encoding_options(EncodingOptions::kPredictedJumps);
             if (er == Error::kOk) { sites.push_back(Site{0, 0, before, a.offset(), t, Label(), form == 4}); if (form == 4 && target == 1 && !known) unreachable_jcc_possible = true; }
             else {
               // only a conditional jump assembled with a known base may be refused, and only when its target is out of reach
-              bool legit = form == 4 && target == 1 && known && !reachable_rel32(base + before + 6, t);
+              bool legit = form == 4 && target == 1 && known && !reachable_rel32(base + before + 6 + prefix_len, t);
               SIM_CHECK(legit, "c04:reachable-target-refused", "%s onto %#llx at offset %zu was refused with error %u (base %s)", form < 2 ? "call" : form < 4 ? "jmp" : "jz", (unsigned long long)t, before, unsigned(er), known ? "known" : "unknown");
               sim::count("c04.probe.unreachable_refused_at_emit");
             }
@@ -541,7 +549,7 @@ Plan generate_decode(uint64_t seed, bool thorough) {
   size_t n = size_t(1 + r.below(thorough ? 30 : 14));
   for (size_t i = 0; i < n; i++) {
     Op op; static const uint16_t ks[] = {kCallStub, kCallStub, kLocalTable, kRipData, kPad};
-    op.kind = r.pick(ks); op.a[0] = int64_t(r.next() & 0x7fffffffffffll); op.a[1] = int64_t(r.below(100000)); op.a[2] = int64_t(r.below(5)); op.a[3] = int64_t(r.below(6));
+    op.kind = r.pick(ks); op.a[0] = int64_t(r.next() & 0x7fffffffffffll); op.a[1] = int64_t(r.below(100000)); op.a[2] = int64_t(r.below(5)); op.a[3] = int64_t(r.below(6) + 6 * (r.chance(1, 3) ? 1 + r.below(3) : 0));   /* second digit: prefix in front of the branch */
     p.ops.push_back(op);
   }
   return p;
